@@ -30,6 +30,33 @@ Z = 99  # an input that is never split
 BODY_CALLS: list = []  # the debug worker runs bodies in this process
 
 
+# Elements that are not integers travel through the JSON cases (and the Lean model, which only looks at positions) as
+# reserved integers; the implementation receives the real Python values.  None and the falsy values are what matters:
+# a job must receive exactly the matching element whatever its truth value.
+ALPHABET = {9001: None, 9002: 0, 9003: "", 9004: False, 9005: [], 9006: {}}
+
+
+def decode(v):
+    """reserved integers -> the Python values they stand for (recursively through lists)"""
+    if isinstance(v, list):
+        return [decode(x) for x in v]
+    if isinstance(v, int) and not isinstance(v, bool) and v in ALPHABET:
+        import copy
+
+        return copy.deepcopy(ALPHABET[v])
+    return v
+
+
+def canon(v):
+    """type-tagged canonical form of a value (so that False != 0, None != '' …); lists stay lists, an empty list that is an
+    element is tagged like a list"""
+    if isinstance(v, (list, tuple)):
+        return [canon(x) for x in v]
+    if v is None or isinstance(v, (bool, str, dict)):
+        return f"{type(v).__name__}:{v!r}"
+    return v
+
+
 class Reject(Exception):
     """the reference semantics rejects the request (inner product of unequal shapes)"""
 
@@ -333,8 +360,8 @@ def case_elems(case) -> tuple[dict, dict, dict]:
 
 
 def job_vector(row: dict) -> list:
-    """what Probe returns for a job whose split fields are `row`"""
-    return [row.get(i, BASE[i]) for i in range(len(FIELDS))] + [Z]
+    """what Probe returns for a job whose split fields are `row` (canonical form)"""
+    return [canon(decode(row.get(i, BASE[i]))) for i in range(len(FIELDS))] + [Z]
 
 
 def render_out(rows: list[dict], out: dict):
@@ -357,7 +384,7 @@ def oracle_case(case) -> dict:
 
 
 def canon_rows(rows: list[dict]) -> list:
-    return [sorted([k, v] for k, v in r.items()) for r in rows]
+    return [[[k, canon(decode(r[k]))] for k in sorted(r)] for r in rows]
 
 
 # ---------------------------------------------------------------------------------------------------------------
@@ -397,7 +424,7 @@ def state_level(case) -> dict:
 
     spl = to_py(case["splitter"])
     comb = [FIELDS[c] for c in case["combiner"]]
-    inputs = {f"{NODE}.{FIELDS[i]}": v for i, v, _ in case["fields"]}
+    inputs = {f"{NODE}.{FIELDS[i]}": decode(v) for i, v, _ in case["fields"]}
     cnd = {f"{NODE}.{FIELDS[i]}": nd for i, _, nd in case["fields"] if nd != 1}
     name_ix = {f"{NODE}.{f}": i for i, f in enumerate(FIELDS)}
     try:
@@ -453,7 +480,7 @@ def public_level(case, root: Path, request=None) -> dict:
         split_names = {FIELDS[i] for i, _, _ in case["fields"]}
         request = {
             "splitter": to_py(case["splitter"]),
-            "kwargs": {FIELDS[i]: v for i, v, _ in case["fields"]},
+            "kwargs": {FIELDS[i]: decode(v) for i, v, _ in case["fields"]},
             "container_ndim": {FIELDS[i]: nd for i, _, nd in case["fields"] if nd != 1} or None,
             "combiner": [FIELDS[c] for c in case["combiner"]] or None,
         }
@@ -472,7 +499,7 @@ def public_level(case, root: Path, request=None) -> dict:
             task = task.combine(request["combiner"])
         stage = "run"
         res = task(cache_root=root, worker="debug")
-        out = {"outputs": plain(res.out)}
+        out = {"outputs": canon(plain(res.out))}
     except Exception as e:  # noqa: BLE001
         out = {"rejected": True, "class": core.exc_tag(e), "stage": stage}
     dirs = sorted(p.name.split("-")[0] for p in root.iterdir() if p.is_dir())
